@@ -85,10 +85,36 @@ def make_span(kind, labels):
         return range(labels[0], labels[0] + len(labels)) if labels else range(0)
     if kind == 'ndarray':
         return np.array(labels, dtype=int)
+    if kind == 'tuple':
+        return tuple(labels)
     if kind == 'index':
         import pandas as pd
         return pd.Index(labels, dtype='int64')
+    if kind == 'period':                     # label y = the annual period of year y
+        import pandas as pd
+        return pd.PeriodIndex([pd.Period(year=y, freq='Y') for y in labels], freq='Y')
+    if kind == 'datetime':                   # label y = 1 January of year y
+        import pandas as pd
+        return pd.DatetimeIndex([pd.Timestamp(year=y, month=1, day=1) for y in labels])
     raise AssertionError(kind)
+
+
+def span_kind_labels(sp):
+    """(kind name, integer labels) of a span object built by make_span"""
+    name = type(sp).__name__
+    if isinstance(sp, range):
+        return 'range', [int(x) for x in sp]
+    if isinstance(sp, list):
+        return 'list', [int(x) for x in sp]
+    if isinstance(sp, tuple):
+        return 'tuple', [int(x) for x in sp]
+    if name == 'ndarray':
+        return 'ndarray', [int(x) for x in sp]
+    if name == 'PeriodIndex':
+        return 'period', [int(x.year) for x in sp]
+    if name == 'DatetimeIndex':
+        return 'datetime', [int(x.year) for x in sp]
+    return 'index', [int(x) for x in sp]
 
 
 def instantiate_sub(base, sub, span, shared):
